@@ -54,6 +54,9 @@ var RolePool = []string{"r1", "r2", "R1", "r 3", `r"4`}
 var TitlePool = []string{"t1", "t2"}
 var AgencyPool = []string{"a1", "a2"}
 
+// ApiNames: see NewEngine.
+var ApiNames bool
+
 func Defs(cfg Config) []*schema.StoreDef {
 	depts := &schema.StoreDef{
 		Type: Depts, BasePath: []string{"stores"},
@@ -92,6 +95,13 @@ func Defs(cfg Config) []*schema.StoreDef {
 	depts.Links = []schema.LinkDef{
 		{Field: "watchers", Target: Emps, TargetField: "watching"},
 		{Field: "creditors", Target: Emps, TargetField: "credits", RefCounted: true},
+	}
+	if ApiNames {
+		for i := range emps.Fields {
+			if api, ok := map[string]string{"name": "displayName", "roles": "roleAttributes", "dept": "department", "nick": "alias"}[emps.Fields[i].Name]; ok {
+				emps.Fields[i].ApiName = api
+			}
+		}
 	}
 	defs := []*schema.StoreDef{depts, emps}
 	if cfg.Children {
